@@ -106,7 +106,8 @@ def run(ck):
     lines = []
     for tree in fsgen.TREES[:4]:
         for s in fsgen.shapes(3): lines.append("mkdirs %s | %s" % (" ".join(tree), hx(s)))
-    for la, lb, d, al in [(0, 0, -1, "ok"), (page, page, -1, "ok"), (page + 1, page + 1, page, "ok"), (3 * page, 3 * page, -1, "fail"), (513, 513, 512, "fail"), (5, 6, -1, "ok")]:
+    for la, lb, d, al in [(0, 0, -1, "ok"), (page, page, -1, "ok"), (page + 1, page + 1, page, "ok"), (3 * page, 3 * page, -1, "fail"), (513, 513, 512, "fail"), (5, 6, -1, "ok"),
+                          (page, page, -1, "fail0"), (page, page, -1, "fail1"), (700, 700, 699, "fail0"), (700, 700, 0, "fail1")]:
         lines.append("feq %d %d %d 0 %s" % (la, lb, d, al))
     lines += ["canon | " + hx("."), "canon d:a | " + hx("a/../a")]
     for l in lines: ck.count_distinct(("fs", l))
